@@ -240,7 +240,7 @@ WriteTxn(chunks, upto, time, hassum) ==          \* upto = number of blocks that
       /\ jsb' = IF jsb.start = 0 THEN [start |-> head, seq |-> nseq] ELSE jsb
       /\ nr' = 1
       /\ hist' = Append(hist, [seq |-> nseq, tags |-> tags, rev |-> FlatRev(chunks, 1), valid |-> IF upto = full THEN 1 ELSE 0,
-                               at |-> head, len |-> full, wr |-> upto, time |-> time, hassum |-> hassum])
+                               at |-> head, len |-> full, wr |-> upto, time |-> time, hassum |-> hassum, dmg |-> {}])
       /\ nseq' = nseq + 1 /\ ver' = ver + Len(tags)
       /\ phase' = IF upto = full THEN "run" ELSE "dmg"
       /\ UNCHANGED <<fs, ndmg, res>>
@@ -274,10 +274,10 @@ DamagedBlocks(k, b) ==
    ELSE {}
 Damage ==
    /\ phase \in {"run", "dmg"} /\ Len(hist) > 0 /\ ndmg < MaxDmg
-   /\ \E k \in 1..Len(hist) : \E off \in 0..(hist[k].wr - 1) :
+   /\ \E k \in 1..Len(hist) : \E off \in (0..(hist[k].wr - 1)) \ hist[k].dmg :      \* each block is damaged at most once
         LET p == Adv(hist[k].at, off) IN
         /\ \E nb \in DamagedBlocks(k, log[p]) : log' = [log EXCEPT ![p] = nb]
-        /\ hist' = [hist EXCEPT ![k].valid = 0]
+        /\ hist' = [hist EXCEPT ![k].valid = 0, ![k].dmg = @ \cup {off}]
    /\ phase' = "dmg" /\ ndmg' = ndmg + 1
    /\ UNCHANGED <<head, nseq, jsb, nr, fs, ver, res>>
 
